@@ -137,6 +137,46 @@ pub fn ratio_tol(t: f64, den: f64) -> f64 {
     2.0 * t / den + 4.0 * EPS32
 }
 
+/// Weighted energy by service is the carrier's weighted energy times the service's share of the carrier's EPB use
+/// (E.3.6), so its error is the carrier's error times that share plus a few ulps of the figure itself - not the
+/// carrier's whole tolerance, under which the figure of a service that takes a millionth of a carrier would be free
+/// to take any value. Returns None for other entries (or when the shares cannot be read from the views).
+fn by_srv_share_tol(k: &str, a: &Flat, b: &Flat, sc: &Scales, mag: f64) -> Option<f64> {
+    let parts: Vec<&str> = k.split('.').collect();
+    let get = |p: String| -> Option<f64> { a.get(&p).or_else(|| b.get(&p)).and_then(|e| e.vals.first().cloned()) };
+    let getmax = |p: String| -> Option<f64> {
+        match (a.get(&p).and_then(|e| e.vals.first().cloned()), b.get(&p).and_then(|e| e.vals.first().cloned())) {
+            (Some(x), Some(y)) => Some(x.max(y)),
+            (x, y) => x.or(y),
+        }
+    };
+    let share = |car: &str, srv: &str| -> Option<f64> {
+        let u = get(format!("cr.{}.used.epus_an", car))?;
+        let us = getmax(format!("cr.{}.used.epus_by_srv_an.{}", car, srv)).unwrap_or(0.0);
+        Some(if u > 0.0 { (us / u).clamp(0.0, 1.0) } else { 1.0 })
+    };
+    let floor = 16.0 * EPS32 * mag + 1e-9;
+    match parts.as_slice() {
+        ["cr", car, "we", which, srv] if *which == "a_by_srv" || *which == "b_by_srv" => {
+            let c = ALL_CARS.iter().find(|c| c.name() == *car)?;
+            Some(share(car, srv)? * tol(sc.s_weighted(Some(*c)), sc.n) + floor)
+        }
+        [top, "we", which, srv] if (*top == "bal" || *top == "m2") && (*which == "a_by_srv" || *which == "b_by_srv") => {
+            let mut t = 0.0;
+            for c in ALL_CARS.iter() {
+                if a.contains_key(&format!("cr.{}.used.epus_an", c.name())) || b.contains_key(&format!("cr.{}.used.epus_an", c.name())) {
+                    t += share(c.name(), srv)? * tol(sc.s_weighted(Some(*c)), sc.n);
+                }
+            }
+            if *top == "m2" {
+                t /= sc.area.max(1e-12);
+            }
+            Some(t + floor)
+        }
+        _ => None,
+    }
+}
+
 /// Compare two flat views entry by entry. Returns the number of ratio comparisons skipped by the
 /// noise rule.
 pub fn compare_flats(a: &Flat, b: &Flat, sc: &Scales, o: &CmpOpts) -> Result<u32, Failure> {
@@ -201,7 +241,8 @@ pub fn compare_flats(a: &Flat, b: &Flat, sc: &Scales, o: &CmpOpts) -> Result<u32
             EK::Weighted => o.slack_weighted,
             _ => 0.0,
         } / if ea.m2 { sc.area.max(1e-12) } else { 1.0 };
-        let t = sc.tol_entry(&ea) * o.tol_mult + slack;
+        let mag = ea.vals.iter().chain(eb.vals.iter()).fold(0.0f64, |m, x| m.max(x.abs()));
+        let t = by_srv_share_tol(k, a, b, sc, mag).unwrap_or_else(|| sc.tol_entry(&ea)) * o.tol_mult + slack;
         for i in 0..ea.vals.len() {
             let (x, y) = (ea.vals[i], eb.vals[i]);
             if !((x - y).abs() <= t) {
